@@ -12,6 +12,10 @@ VARIABLES cfg, stage
 vars == <<cfg, stage>>
 Opt == Vals \cup {"none"}
 Comps == {"header", "query", "cookie", "ua", "referer", "param"}
+\* the timeout is a precedence component too (value classes: "plain" = long, "esc" = short); it is varied on its own, and what
+\* arrives is observed on a slow endpoint: a request whose effective timeout is absent or long is answered, and so is the next
+\* request of a client that configured none -- a timeout never outlives the request it was set on
+TimeoutLvl == [client : {"none", "plain", "esc"}, request : {"none", "plain", "esc"}]
 Lvl == [client : Opt, request : Opt]
 \* precedence components: the request-level value if configured, else the client-level one, else nothing
 Prec(l) == IF l.request # "none" THEN <<[lvl |-> "request", v |-> l.request]>>
@@ -20,12 +24,13 @@ Prec(l) == IF l.request # "none" THEN <<[lvl |-> "request", v |-> l.request]>>
 Both(l) == (IF l.client # "none" THEN <<[lvl |-> "client", v |-> l.client]>> ELSE <<>>)
            \o (IF l.request # "none" THEN <<[lvl |-> "request", v |-> l.request]>> ELSE <<>>)
 Arrives(c) == [header |-> Both(c.header), query |-> Both(c.query), cookie |-> Prec(c.cookie),
-               ua |-> Prec(c.ua), referer |-> Prec(c.referer), param |-> Prec(c.param)]
+               ua |-> Prec(c.ua), referer |-> Prec(c.referer), param |-> Prec(c.param), timeout |-> Prec(c.timeout)]
 Default == [client |-> "none", request |-> "none"]
-AllDefault == [k \in Comps |-> Default]
+AllDefault == [k \in Comps \cup {"timeout"} |-> Default]
 \* exhaustive in each component (and in each pair of components), the others unconfigured
 Init == /\ stage = 0
         /\ cfg \in {[AllDefault EXCEPT ![k1] = l1, ![k2] = l2] : k1 \in Comps, k2 \in Comps, l1 \in Lvl, l2 \in Lvl}
+                  \cup {[AllDefault EXCEPT !["timeout"] = l, !["param"] = [client |-> "none", request |-> "plain"]] : l \in TimeoutLvl}
 Next == stage = 0 /\ stage' = 1 /\ UNCHANGED cfg
 Spec == Init /\ [][Next]_vars
 Emit == stage = 1 => PrintT(<<"CASE", ToJson([cfg |-> cfg, arrives |-> Arrives(cfg)])>>)
